@@ -29,7 +29,7 @@ def _u(name, kinds, inits, parents, depth, ops=None, slack=2, pairs=1):
 def universes(tier):
     '''Deterministic list of universes of a tier.'''
     quick = tier == "quick"
-    d = 3 if quick else 5
+    d = 3 if quick else 4
     ops = QUICK_OPS if quick else ALL_OPS
     res = [
         # Loop bound slots; twins: Literal 3/4, Schedule 2/6
@@ -41,7 +41,8 @@ def universes(tier):
         # Call: routine Reference at 0, arguments after (twins Reference 2/3)
         _u("call", ["Call", "Reference", "Reference", "Literal", "BinaryOperation",
                     "Assignment"],
-           [{1: [2, 3, 4]}, {6: [3, 1], 1: [2, 5], 5: [4]}], [1, 5, 6], d, ops),
+           [{1: [2, 3, 4]}, {6: [3, 1], 1: [2, 5], 5: [4]}], [1, 5, 6],
+           d - 1, ops),
         # nested statements: ancestors of the edited parent as candidate children
         _u("nest", ["Schedule", "IfBlock", "Literal", "Schedule", "Assignment", "Schedule"],
            [{1: [2], 2: [3, 4, 6], 4: [5]}], [1, 2, 4, 5, 6], d - 1 if quick else d, ops),
@@ -49,7 +50,7 @@ def universes(tier):
         _u("expr", ["Assignment", "BinaryOperation", "BinaryOperation", "Literal",
                     "Literal", "UnaryOperation"],
            [{1: [2, 3], 2: [4, 5]}, {1: [6, 2], 6: [3], 3: [4, 5]}], [1, 2, 3, 6],
-           d - 1 if quick else d, ops),
+           d - 1, ops),
         # OpenMP parallel directive: one clause kind per position
         _u("omp", ["OMPParallel", "Schedule", "OMPDefaultClause", "OMPPrivateClause",
                    "OMPFirstprivateClause", "Return"],
@@ -66,10 +67,10 @@ def universes(tier):
         res += [
             _u("loop8", ["Schedule", "Loop", "Schedule", "Literal", "Literal", "Reference",
                          "Assignment", "Return"],
-               [{1: [2, 8], 2: [4, 5, 6, 3], 3: [7]}], [1, 2, 3, 7], 3, ALL_OPS),
+               [{1: [2, 8], 2: [4, 5, 6, 3], 3: [7]}], [1, 2, 3, 7], 2, ALL_OPS),
             _u("if7", ["Schedule", "IfBlock", "Schedule", "Schedule", "Literal", "Call",
                        "Reference"],
-               [{1: [2], 2: [5, 3, 4], 3: [6], 6: [7]}], [1, 2, 3, 4, 6], 3, ALL_OPS),
+               [{1: [2], 2: [5, 3, 4], 3: [6], 6: [7]}], [1, 2, 3, 4, 6], 2, ALL_OPS),
         ]
     return res
 
@@ -78,7 +79,7 @@ def history_universes(tier, seed):
     '''Universes for the long pseudo-random histories (generator mode):
     (universe, number of histories, length).'''
     quick = tier == "quick"
-    num = 150 if quick else 2500
+    num = 150 if quick else 1000
     length = 30 if quick else 40
     res = []
     for uni in universes("thorough")[:7] + universes("thorough")[-2:]:
@@ -87,6 +88,6 @@ def history_universes(tier, seed):
         uni["depth"] = length
         uni["traces"] = num
         uni["seed"] = seed
-        uni["inits"] = uni["inits"][:1] if quick else uni["inits"]
+        uni["inits"] = uni["inits"][:1] if quick else uni["inits"][:2]
         res.append(uni)
     return res
